@@ -133,10 +133,27 @@ pub fn lift(v: &Value, pk: &mut dyn Picker) -> Option<OwnedTerm> {
             }
             OwnedTerm::Map(bm)
         }
-        Value::Pid { .. } => OwnedTerm::Pid(lift_pid(v)),
-        Value::Port { node, id, creation } => OwnedTerm::Port(ExternalPort::new(Atom::new(node), *id, *creation)),
+        Value::Pid { .. } => {
+            let mut p = lift_pid(v);
+            if pk.pick(5, "id-local") == 4 {
+                p.local_ext_bytes = Some(local_bytes(v, pk).into());
+            }
+            OwnedTerm::Pid(p)
+        }
+        Value::Port { node, id, creation } => {
+            let mut p = ExternalPort::new(Atom::new(node), *id, *creation);
+            // (the inner form of a node-local port must be one the decoder knows)
+            if pk.pick(5, "id-local") == 4 {
+                p.local_ext_bytes = Some(local_bytes(v, pk).into());
+            }
+            OwnedTerm::Port(p)
+        }
         Value::Ref { node, creation, ids } => {
-            OwnedTerm::Reference(ExternalReference::new(Atom::new(node), *creation, ids.clone()))
+            let mut r = ExternalReference::new(Atom::new(node), *creation, ids.clone());
+            if pk.pick(5, "id-local") == 4 {
+                r.local_ext_bytes = Some(local_bytes(v, pk).into());
+            }
+            OwnedTerm::Reference(r)
         }
         Value::ExportFun { module, function, arity } => {
             OwnedTerm::ExternalFun(ExternalFun::new(Atom::new(module), Atom::new(function), *arity))
@@ -156,6 +173,15 @@ pub fn lift(v: &Value, pk: &mut dyn Picker) -> Option<OwnedTerm> {
             )))
         }
     })
+}
+
+/// The raw bytes the decoder captures for a node-local identifier: 8-byte hash followed by the
+/// identifier's own (modern) encoding, without the LOCAL_EXT tag byte.
+pub fn local_bytes(v: &Value, pk: &mut dyn Picker) -> Vec<u8> {
+    let h = pk.pick(256, "local-hash") as u8;
+    let mut out = vec![h, h ^ 0x5a, 1, 2, 3, 4, 5, h.wrapping_add(7)];
+    out.extend_from_slice(&refmodel::etf::refenc_canonical(v)[1..]);
+    out
 }
 
 /// Canonical lift (always alternative 0).
